@@ -197,45 +197,164 @@ Proof.
       split; [exact B2|]. rewrite K2, L1, <- app_assoc. reflexivity.
 Qed.
 
+(* ---- every cell node has a spine header (the parents handed from line to line always have one) *)
+Definition hashdr (d : doc) (id : nat) : Prop := n_header (get_node d id) <> None.
+Definition hh (s : istate) : Prop :=
+  Forall (hashdr (i_doc s)) (i_next s) /\ match i_prev s with Some l => Forall (hashdr (i_doc s)) l | None => True end.
+
+Lemma hashdr_grows d d' l : grows d d' -> Forall (fun id => id < List.length (d_nodes d)) l -> Forall (hashdr d) l -> Forall (hashdr d') l.
+Proof.
+  intros [_ G] Hb H. induction H as [|x l Hx H IH]; [constructor|]. inversion Hb; subst. constructor; [|apply IH; assumption].
+  unfold hashdr in *. destruct (G x ltac:(assumption)) as [_ ->]. exact Hx.
+Qed.
+
+Lemma step_cell_hh bad row s icol col s' b : state_ok s -> hdr_ok (i_doc s) -> hh s -> step_cell bad row s icol col = IOk (s', b) ->
+  hh s' /\ hashdr (i_doc s') (List.length (d_nodes (i_doc s))).
+Proof.
+  intros Hs Hd [Hn Hp] Hc. pose proof Hs as [T Bn Bp Hh].
+  destruct (step_cell_grid _ _ _ _ _ _ _ Hs Hd Hc) as [G [L [R _]]].
+  assert (Hnew : hashdr (i_doc s') (List.length (d_nodes (i_doc s)))).
+  { (* from the construction of the node *)
+    revert Hc. unfold step_cell.
+    destruct (startswith "**" col) eqn:E1.
+    - destruct (add_node _ _ _ _ _ _ _) as [[d1 id]| |] eqn:Ha; try discriminate.
+      assert (T0 : tree_ok (set_header_stage (i_doc s) (i_stage s))) by (eapply tree_ok_same_links; [apply links_set_header_stage | exact T]).
+      destruct (add_node_spec _ _ _ _ _ _ _ _ _ T0 Hh Ha) as [Eid [El _]]. cbn [set_header_stage d_nodes] in Eid.
+      intros H. injection H as <- _. unfold push_next, set_doc, hashdr. cbn [i_doc]. rewrite <- Eid.
+      rewrite get_set_header_self, Nat.eqb_refl, El. replace (Nat.ltb id (S id)) with true by (symmetry; apply Nat.ltb_lt; lia). discriminate.
+    - destruct (mem_str col spine_operations) eqn:E2.
+      + destruct (i_prev s) as [prev|] eqn:Ep; [|discriminate].
+        destruct (Nat.leb (List.length prev) icol) eqn:El0; [discriminate|]. apply Nat.leb_gt in El0.
+        assert (Hpar : nth icol prev 0 < List.length (d_nodes (i_doc s))) by (apply nth_ids_ok; [assumption | apply T]).
+        assert (Hph : hashdr (i_doc s) (nth icol prev 0)) by (rewrite Forall_forall in Hp; apply Hp; apply nth_In; exact El0).
+        destruct (add_node _ _ _ _ _ _ _) as [[d1 id]| |] eqn:Ha; try discriminate.
+        destruct (add_node_spec _ _ _ _ _ _ _ _ _ T Hpar Ha) as [Eid [El [_ [_ [_ [Eh _]]]]]].
+        assert (Gen : forall d2, same_nodes_hdr d1 d2 -> hashdr d2 (List.length (d_nodes (i_doc s)))).
+        { intros d2 [_ H2]. unfold hashdr. rewrite <- Eid. destruct (H2 id) as [_ ->]. rewrite Eh. exact Hph. }
+        destruct (String.eqb col "*-"); [intros H; injection H as <- _; unfold set_doc; cbn [i_doc]; apply Gen; destruct (n_lastop _); hdr_same|].
+        destruct (String.eqb col "*+" || String.eqb col "*^"); [intros H; injection H as <- _; unfold push_next, set_doc; cbn [i_doc]; apply Gen; hdr_same|].
+        destruct (String.eqb col "*v"); [|discriminate]. intros H. injection H as <- _.
+        destruct (match icol with O => true | S _ => _ end); unfold push_next, set_doc; cbn [i_doc]; apply Gen; destruct (n_lastop _); hdr_same.
+      + match goal with |- context [match ?X with IOk _ => _ | IErr _ => _ | IOut => _ end = _] => destruct X as [[tok is_err]| |] eqn:Etok end;
+          try discriminate.
+        destruct (i_prev s) as [prev|] eqn:Ep; [|discriminate].
+        destruct (Nat.leb (List.length prev) icol) eqn:El0; [discriminate|]. apply Nat.leb_gt in El0.
+        assert (Hpar : nth icol prev 0 < List.length (d_nodes (i_doc s))) by (apply nth_ids_ok; [assumption | apply T]).
+        assert (Hph : hashdr (i_doc s) (nth icol prev 0)) by (rewrite Forall_forall in Hp; apply Hp; apply nth_In; exact El0).
+        destruct (add_node _ _ _ _ _ _ _) as [[d1 id]| |] eqn:Ha; try discriminate.
+        destruct (add_node_spec _ _ _ _ _ _ _ _ _ T Hpar Ha) as [Eid [El [_ [_ [_ [Eh _]]]]]].
+        intros H. injection H as <- _. unfold push_next, set_doc. cbn [i_doc].
+        set (d2 := if is_err then add_error d1 id else d1).
+        assert (S2 : same_nodes_hdr d1 d2) by (unfold d2; destruct is_err; hdr_same).
+        match goal with |- hashdr ?D _ => set (d3 := D) end.
+        assert (S3 : same_nodes_hdr d1 d3).
+        { unfold d3. destruct (cat_beq _ BARLINES || _); [exact S2|]. destruct (String.eqb _ "BoundingBoxToken"); [exact S2|].
+          destruct (is_signature_token tok); [eapply hdr_same_trans; [exact S2 | hdr_same] | exact S2]. }
+        destruct S3 as [_ H3]. unfold hashdr. rewrite <- Eid. destruct (H3 id) as [_ ->]. rewrite Eh. exact Hph. }
+  split; [|exact Hnew].
+  (* the lists of the new state: old ids (still with their headers) and possibly the new id *)
+  assert (Old : forall l, Forall (fun id => id < List.length (d_nodes (i_doc s))) l -> Forall (hashdr (i_doc s)) l -> Forall (hashdr (i_doc s')) l)
+    by (intros l; apply hashdr_grows; exact G).
+  assert (Eprev : i_prev s' = i_prev s /\ (i_next s' = i_next s \/ i_next s' = i_next s ++ [List.length (d_nodes (i_doc s))] \/
+                                          i_next s' = i_next s ++ [List.length (d_nodes (i_doc s)); List.length (d_nodes (i_doc s))])).
+  { revert Hc. unfold step_cell.
+    destruct (startswith "**" col).
+    - destruct (add_node _ _ _ _ _ _ _) as [[d1 id]| |] eqn:Ha; try discriminate.
+      assert (T0 : tree_ok (set_header_stage (i_doc s) (i_stage s))) by (eapply tree_ok_same_links; [apply links_set_header_stage | exact T]).
+      destruct (add_node_spec _ _ _ _ _ _ _ _ _ T0 Hh Ha) as [Eid _]. cbn [set_header_stage d_nodes] in Eid.
+      intros H. injection H as <- _. unfold push_next, set_doc. cbn [i_prev i_next]. rewrite <- Eid. split; [reflexivity | right; left; reflexivity].
+    - destruct (mem_str col spine_operations).
+      + destruct (i_prev s) as [prev|] eqn:Ep; [|discriminate]. destruct (Nat.leb _ icol); [discriminate|].
+        assert (Hpar : nth icol prev 0 < List.length (d_nodes (i_doc s))) by (apply nth_ids_ok; [assumption | apply T]).
+        destruct (add_node _ _ _ _ _ _ _) as [[d1 id]| |] eqn:Ha; try discriminate.
+        destruct (add_node_spec _ _ _ _ _ _ _ _ _ T Hpar Ha) as [Eid _].
+        destruct (String.eqb col "*-"); [intros H; injection H as <- _; unfold set_doc; cbn [i_prev i_next]; split; [first [exact Ep | reflexivity] | left; reflexivity]|].
+        destruct (String.eqb col "*+" || String.eqb col "*^"); [intros H; injection H as <- _; unfold push_next, set_doc; cbn [i_prev i_next]; rewrite <- Eid; split; [first [exact Ep | reflexivity] | right; right; reflexivity]|].
+        destruct (String.eqb col "*v"); [|discriminate]. intros H. injection H as <- _.
+        destruct (match icol with O => true | S _ => _ end); unfold push_next, set_doc; cbn [i_prev i_next]; rewrite <- ?Eid;
+          (split; [first [exact Ep | reflexivity] | first [right; left; reflexivity | left; reflexivity]]).
+      + match goal with |- context [match ?X with IOk _ => _ | IErr _ => _ | IOut => _ end = _] => destruct X as [[tok is_err]| |] end;
+          try discriminate.
+        destruct (i_prev s) as [prev|] eqn:Ep; [|discriminate]. destruct (Nat.leb _ icol); [discriminate|].
+        assert (Hpar : nth icol prev 0 < List.length (d_nodes (i_doc s))) by (apply nth_ids_ok; [assumption | apply T]).
+        destruct (add_node _ _ _ _ _ _ _) as [[d1 id]| |] eqn:Ha; try discriminate.
+        destruct (add_node_spec _ _ _ _ _ _ _ _ _ T Hpar Ha) as [Eid _].
+        intros H. injection H as <- _. unfold push_next, set_doc. cbn [i_prev i_next]. rewrite <- Eid. split; [first [exact Ep | reflexivity] | right; left; reflexivity]. }
+  destruct Eprev as [Ep En]. split.
+  - destruct En as [-> | [-> | ->]]; [apply Old; assumption | |]; apply Forall_app; split; try (apply Old; assumption);
+      repeat constructor; exact Hnew.
+  - rewrite Ep. destruct (i_prev s) as [l|]; [apply Old; assumption | exact I].
+Qed.
+
+Lemma cells_hh bad row : forall cols s icol bar s' b, state_ok s -> hdr_ok (i_doc s) -> hh s ->
+  step_cells bad row s icol cols bar = IOk (s', b) ->
+  hh s' /\ Forall (hashdr (i_doc s')) (seq (List.length (d_nodes (i_doc s))) (List.length cols)).
+Proof.
+  induction cols as [|c cols IH]; intros s icol bar s' b Hs Hd Hh; cbn [step_cells List.length seq].
+  - intros H. injection H as <- _. split; [exact Hh | constructor].
+  - destruct (step_cell bad row s icol c) as [[s1 b1]| |] eqn:Hc; try discriminate.
+    destruct (step_cell_hh _ _ _ _ _ _ _ Hs Hd Hh Hc) as [Hh1 Hnew].
+    destruct (step_cell_grid _ _ _ _ _ _ _ Hs Hd Hc) as [G1 [L1 _]].
+    pose proof (step_cell_ok _ _ _ _ _ _ _ Hs Hc) as Hs1. pose proof (step_cell_hdr _ _ _ _ _ _ _ Hs Hd Hc) as Hd1.
+    intros H. destruct (IH s1 _ _ _ _ Hs1 Hd1 Hh1 H) as [Hh2 F2]. split; [exact Hh2|].
+    constructor; [|rewrite L1 in F2; exact F2].
+    (* the header of the node just made is still there at the end of the line *)
+    assert (G2 : grows (i_doc s1) (i_doc s')).
+    { clear - Hs1 Hd1 H. revert H. generalize (bar || b1). generalize (S icol). revert s1 Hs1 Hd1.
+      induction cols as [|c2 cols2 IH2]; intros s1 Hs1 Hd1 n0 b0; cbn [step_cells].
+      - intros H. injection H as <- _. apply grows_refl.
+      - destruct (step_cell bad row s1 n0 c2) as [[s2 b2]| |] eqn:Hc2; try discriminate.
+        destruct (step_cell_grid _ _ _ _ _ _ _ Hs1 Hd1 Hc2) as [G _]. intros H.
+        eapply grows_trans; [exact G|]. eapply IH2; [eapply step_cell_ok; eassumption | eapply step_cell_hdr; eassumption | exact H]. }
+    unfold hashdr in *. destruct G2 as [_ G2]. destruct (G2 (List.length (d_nodes (i_doc s))) ltac:(lia)) as [_ ->]. exact Hnew.
+Qed.
+
 (* ---- one line *)
 Definition row_rel (bad : list string) (d : doc) (rowno : nat) (ids : list nat) (row : list string) : Prop :=
   match row with
   | [] => False
   | first :: _ =>
     if startswith "!!" first
-    then exists id, ids = [id] /\ n_tok (get_node d id) = Some (TSimple (strip first) LINE_COMMENTS "MetacommentToken")
-    else Forall2 (cell_rel bad d rowno) ids row
+    then exists id, ids = [id] /\ n_tok (get_node d id) = Some (TSimple (strip first) LINE_COMMENTS "MetacommentToken") /\
+                   n_header (get_node d id) = None
+    else Forall2 (cell_rel bad d rowno) ids row /\ Forall (hashdr d) ids
   end.
 
 Lemma row_rel_grows bad d d' r ids row : hdr_ok d -> grows d d' -> Forall (fun id => id < List.length (d_nodes d)) ids ->
   row_rel bad d r ids row -> row_rel bad d' r ids row.
 Proof.
   intros Hd G Hb. unfold row_rel. destruct row as [|first rest]; [auto|]. destruct (startswith "!!" first).
-  - intros [id [-> Et]]. exists id. split; [reflexivity|]. inversion Hb; subst. destruct G as [_ H]. destruct (H id ltac:(assumption)) as [-> _]. exact Et.
-  - intros F. exact (cells_rel_grows bad d d' r Hd G ids _ Hb F).
+  - intros [id [-> [Et Eh]]]. exists id. split; [reflexivity|]. inversion Hb; subst. destruct G as [_ H]. destruct (H id ltac:(assumption)) as [-> ->]. split; assumption.
+  - intros [F H]. split; [exact (cells_rel_grows bad d d' r Hd G ids _ Hb F) | exact (hashdr_grows d d' ids G Hb H)].
 Qed.
 
-Lemma step_row_grid bad s row s' : state_ok s -> hdr_ok (i_doc s) -> List.length (d_stages (i_doc s)) = S (i_stage s) ->
-  row <> [] -> step_row bad s row = IOk s' ->
+Lemma step_row_grid bad s row s' : state_ok s -> hdr_ok (i_doc s) -> hh s -> List.length (d_stages (i_doc s)) = S (i_stage s) ->
+  row <> [] -> step_row bad s row = IOk s' -> hh s' /\
   exists ids, grows (i_doc s) (i_doc s') /\ d_stages (i_doc s') = d_stages (i_doc s) ++ [ids] /\
     row_rel bad (i_doc s') (i_row s) ids row /\ Forall (fun id => id < List.length (d_nodes (i_doc s'))) ids /\
     i_row s' = S (i_row s) /\ i_stage s' = S (i_stage s) /\
     (startswith "!!" (hd ""%string row) = false -> ids = seq (List.length (d_nodes (i_doc s))) (List.length row)).
 Proof.
-  intros Hs Hd Hlen Hne. pose proof Hs as [T Hn Hp Hh]. unfold step_row, row_rel. destruct row as [|first rest]; [contradiction|].
+  intros Hs Hd [HHn HHp] Hlen Hne. pose proof Hs as [T Hn Hp Hh]. unfold step_row, row_rel. destruct row as [|first rest]; [contradiction|].
   set (prev := match i_next s with [] => i_prev s | n :: l0 => Some (n :: l0) end).
   assert (Hprev : match prev with Some l => ids_ok (i_doc s) l | None => True end).
   { unfold prev. destruct (i_next s) eqn:E; [exact Hp | exact Hn]. }
+  assert (HHprev : match prev with Some l => Forall (hashdr (i_doc s)) l | None => True end).
+  { unfold prev. destruct (i_next s) eqn:E; [exact HHp | exact HHn]. }
   clearbody prev.
   cbn [hd]. destruct (startswith "!!" first).
   - destruct (add_node _ _ _ _ _ _ _) as [[d1 id]| |] eqn:Ha; try discriminate. cbn [i_doc i_prehdr] in Ha.
-    destruct (add_node_spec _ _ _ _ _ _ _ _ _ T Hh Ha) as [Eid [El [_ [_ [Et [_ [_ [_ Hold]]]]]]]].
+    destruct (add_node_spec _ _ _ _ _ _ _ _ _ T Hh Ha) as [Eid [El [_ [_ [Et [Ehd [_ [_ Hold]]]]]]]].
     pose proof (add_node_stages _ _ _ _ _ _ _ _ _ Ha) as Es. rewrite Hlen, Nat.eqb_refl in Es.
-    intros H. injection H as <-. cbn [i_doc i_row i_stage]. exists [id].
-    split; [eapply grows_add; eassumption|]. split; [exact Es|]. split; [exists id; split; [reflexivity | exact Et]|].
-    split; [constructor; [lia | constructor]|]. split; [reflexivity|]. split; [reflexivity | discriminate].
+    pose proof (grows_add _ _ _ _ _ _ _ _ _ T Hh Ha) as G.
+    intros H. injection H as <-. cbn [i_doc i_row i_stage]. split.
+    + split; cbn [i_doc i_next i_prev]; [constructor|]. destruct prev as [l|]; [|exact I]. exact (hashdr_grows _ _ l G Hprev HHprev).
+    + exists [id].
+      split; [exact G|]. split; [exact Es|]. split; [exists id; split; [reflexivity | split; [exact Et | exact Ehd]]|].
+      split; [constructor; [lia | constructor]|]. split; [reflexivity|]. split; [reflexivity | discriminate].
   - set (s0 := {| i_doc := i_doc s; i_row := i_row s; i_stage := S (i_stage s); i_next := []; i_prev := prev; i_prehdr := i_prehdr s |}).
     assert (Hs0 : state_ok s0) by (apply state_ok_intro; [exact T | apply ids_ok_nil | exact Hprev | exact Hh]).
+    assert (HH0 : hh s0) by (split; cbn [s0 i_doc i_next i_prev]; [constructor | exact HHprev]).
     destruct (step_cells bad (first :: rest) s0 0 (first :: rest) false) as [[s1 bar]| |] eqn:Hc; try discriminate.
     assert (X : exists cur', grows (i_doc s0) (i_doc s1) /\ i_stage s1 = i_stage s0 /\ i_row s1 = i_row s0 /\
               d_stages (i_doc s1) = d_stages (i_doc s) ++ cur_stage cur' /\ Forall2 (cell_rel bad (i_doc s1) (i_row s0)) cur' ([] ++ first :: rest) /\
@@ -247,17 +366,26 @@ Proof.
       - constructor.
       - exact Hc. }
     destruct X as [cur [G [Est [Er [St [F [B N]]]]]]].
+    destruct (cells_hh bad _ _ _ _ _ _ _ Hs0 Hd HH0 Hc) as [[HH1n HH1p] Hnewh].
     cbn [s0 i_doc i_stage i_row app] in *.
-    intros H. injection H as <-. cbn [i_doc i_row i_stage]. exists cur.
+    assert (Hcurh : Forall (hashdr (i_doc s1)) cur) by (rewrite N; exact Hnewh).
+    intros H. injection H as <-. cbn [i_doc i_row i_stage i_next i_prev].
     assert (Hcur : cur <> []) by (rewrite N; discriminate).
     assert (Ecs : cur_stage cur = [cur]) by (destruct cur; [contradiction | reflexivity]). rewrite Ecs in St.
-    destruct bar.
-    + split; [eapply grows_trans; [exact G | apply grows_same; hdr_same]|]. cbn [push_mst d_stages d_nodes].
-      split; [exact St|]. split.
-      * assert (Hd1 : hdr_ok (i_doc s1)) by (eapply step_cells_hdr; [exact Hs0 | exact Hd | exact Hc]).
-        eapply (cells_rel_grows bad (i_doc s1)); [exact Hd1 | apply grows_same; hdr_same | exact B | exact F].
-      * split; [exact B|]. split; [now rewrite Er|]. split; [exact Est | intros _; exact N].
-    + split; [exact G|]. split; [exact St|]. split; [exact F|]. split; [exact B|]. split; [now rewrite Er|]. split; [exact Est | intros _; exact N].
+    pose proof (step_cells_ok _ _ _ _ _ _ _ _ Hs0 Hc) as [T1 Hn1 Hp1 _].
+    assert (Hd1 : hdr_ok (i_doc s1)) by (eapply step_cells_hdr; [exact Hs0 | exact Hd | exact Hc]).
+    set (d' := if bar then push_mst (i_doc s1) (S (i_stage s)) else i_doc s1).
+    assert (Gd : grows (i_doc s1) d') by (unfold d'; destruct bar; [apply grows_same; hdr_same | apply grows_refl]).
+    assert (Ld : List.length (d_nodes d') = List.length (d_nodes (i_doc s1))) by (unfold d'; destruct bar; reflexivity).
+    assert (Sd : d_stages d' = d_stages (i_doc s1)) by (unfold d'; destruct bar; reflexivity).
+    split.
+    + split.
+      * exact (hashdr_grows _ _ _ Gd Hn1 HH1n).
+      * destruct (i_next s1) as [|x xs]; [|destruct (i_prev s1) as [l|]; [exact (hashdr_grows _ _ l Gd Hp1 HH1p) | exact I]].
+        destruct (i_prev s1) as [[|y l]|]; [constructor | constructor | exact I].
+    + exists cur. split; [eapply grows_trans; eassumption|]. split; [rewrite Sd; exact St|]. split.
+      * split; [exact (cells_rel_grows bad (i_doc s1) d' (i_row s) Hd1 Gd cur _ B F) | exact (hashdr_grows _ _ cur Gd B Hcurh)].
+      * split; [rewrite Ld; exact B|]. split; [now rewrite Er|]. split; [exact Est | intros _; exact N].
 Qed.
 
 (* ---- all the lines *)
@@ -286,26 +414,26 @@ Qed.
 Definition nonempty_row (row : list string) : bool := match row with [] => false | _ => true end.
 
 Definition grid_inv (bad : list string) (s : istate) (rows : list (list string)) : Prop :=
-  state_ok s /\ hdr_ok (i_doc s) /\
+  state_ok s /\ hdr_ok (i_doc s) /\ hh s /\
   exists sts, d_stages (i_doc s) = [0] :: sts /\ rows_rel bad (i_doc s) 1 sts rows /\
               Forall (Forall (fun id => id < List.length (d_nodes (i_doc s)))) sts /\
               i_row s = S (List.length rows) /\ i_stage s = List.length sts.
 
 Lemma grid_inv_init bad : grid_inv bad init_state [].
 Proof.
-  split; [apply init_state_ok|]. split; [apply hdr_ok_empty|]. exists []. repeat split; constructor.
+  split; [apply init_state_ok|]. split; [apply hdr_ok_empty|]. split; [split; [constructor | exact I]|]. exists []. repeat split; constructor.
 Qed.
 
 Lemma step_row_grid_inv bad s rows row s' : grid_inv bad s rows -> step_row bad s row = IOk s' ->
   grid_inv bad s' (rows ++ (if nonempty_row row then [row] else [])).
 Proof.
-  intros [Hs [Hd [sts [Est [R [B [Er Es]]]]]]] H.
+  intros [Hs [Hd [HH [sts [Est [R [B [Er Es]]]]]]]] H.
   destruct row as [|first rest].
-  - cbn in H. injection H as <-. cbn [nonempty_row]. rewrite app_nil_r. split; [exact Hs|]. split; [exact Hd|]. exists sts. repeat split; assumption.
+  - cbn in H. injection H as <-. cbn [nonempty_row]. rewrite app_nil_r. split; [exact Hs|]. split; [exact Hd|]. split; [exact HH|]. exists sts. repeat split; assumption.
   - cbn [nonempty_row].
     assert (Hlen : List.length (d_stages (i_doc s)) = S (i_stage s)) by (rewrite Est, Es; reflexivity).
-    destruct (step_row_grid bad s (first :: rest) s' Hs Hd Hlen ltac:(discriminate) H) as [ids [G [St [RR [Bi [Er' [Es' _]]]]]]].
-    split; [eapply step_row_ok; eassumption|]. split; [eapply step_row_hdr; eassumption|].
+    destruct (step_row_grid bad s (first :: rest) s' Hs Hd HH Hlen ltac:(discriminate) H) as [HH' [ids [G [St [RR [Bi [Er' [Es' _]]]]]]]].
+    split; [eapply step_row_ok; eassumption|]. split; [eapply step_row_hdr; eassumption|]. split; [exact HH'|].
     exists (sts ++ [ids]). split; [rewrite St, Est; reflexivity|]. split.
     + apply rows_rel_snoc; [eapply rows_rel_grows; eassumption|]. rewrite Er in RR. exact RR.
     + split.
@@ -330,7 +458,7 @@ Theorem loads_grid bad text d : loads bad text = IOk d ->
   exists sts, d_stages d = [0] :: sts /\ rows_rel bad d 1 sts (filter nonempty_row (rows_of_text text)).
 Proof.
   unfold loads. destruct (run_rows bad init_state (rows_of_text text)) as [s| |] eqn:H; try discriminate.
-  intros E. injection E as <-. destruct (run_rows_grid bad _ _ _ _ (grid_inv_init bad) H) as [_ [_ [sts [E1 [R _]]]]].
+  intros E. injection E as <-. destruct (run_rows_grid bad _ _ _ _ (grid_inv_init bad) H) as [_ [_ [_ [sts [E1 [R _]]]]]].
   exists sts. split; [exact E1 | exact R].
 Qed.
 
@@ -338,7 +466,7 @@ Theorem load_file_grid bad bytes d : load_file bad bytes = IOk d ->
   exists sts, d_stages d = [0] :: sts /\ rows_rel bad d 1 sts (filter nonempty_row (rows_of_file bytes)).
 Proof.
   unfold load_file. destruct (run_rows bad init_state (rows_of_file bytes)) as [s| |] eqn:H; try discriminate.
-  intros E. injection E as <-. destruct (run_rows_grid bad _ _ _ _ (grid_inv_init bad) H) as [_ [_ [sts [E1 [R _]]]]].
+  intros E. injection E as <-. destruct (run_rows_grid bad _ _ _ _ (grid_inv_init bad) H) as [_ [_ [_ [sts [E1 [R _]]]]]].
   exists sts. split; [exact E1 | exact R].
 Qed.
 
